@@ -131,7 +131,7 @@ Section RP.
             - apply N.eqb_eq in E; subst a. cbn [c_data c_storage]. split.
               + rewrite Cd. unfold jacc. rewrite jlast_snoc. reflexivity.
               + intros k. rewrite St. unfold jraw. rewrite (jbar_snoc J _ _ a0 Hok). rewrite jlast_snoc. cbn [skey_eqb].
-                rewrite !N.eqb_refl. cbn [andb]. destruct (k =? k0); auto.
+                rewrite !N.eqb_refl. cbn [andb]. destruct (k =? k0); auto. apply Cs.
             - assert (N : a0 <> a) by (intros ->; rewrite N.eqb_refl in E; discriminate).
               specialize (IH a). destruct (Model.ch_find a chs) as [c'|].
               + destruct IH as [D S]. split.
